@@ -32,6 +32,38 @@ namespace vh {
     static char g_first_dirty[512] = "";
     static uint64_t g_nq = 0;
 
+    // open-addressing set of the quarantined block addresses: a second release of a block that is still in
+    // quarantine is a double delete
+    static constexpr size_t SETSZ = 1u << 22;
+    static void* g_set[SETSZ];
+    static size_t slot_of(void* p) { return (size_t) (((uintptr_t) p >> 4) * 0x9E3779B97F4A7C15ull >> 42) & (SETSZ - 1); }
+    static bool set_has(void* p)
+    {
+        for (size_t i = slot_of(p);; i = (i + 1) & (SETSZ - 1))
+        {
+            if (g_set[i] == p) return true;
+            if (!g_set[i]) return false;
+        }
+    }
+    static void set_add(void* p)
+    {
+        size_t i = slot_of(p);
+        while (g_set[i] && g_set[i] != (void*) 1) i = (i + 1) & (SETSZ - 1);
+        g_set[i] = p;
+    }
+    static void set_del(void* p)
+    {
+        for (size_t i = slot_of(p);; i = (i + 1) & (SETSZ - 1))
+        {
+            if (g_set[i] == p)
+            {
+                g_set[i] = (void*) 1;    // tombstone
+                return;
+            }
+            if (!g_set[i]) return;
+        }
+    }
+
     static void lock()
     {
         while (__atomic_exchange_n(&g_lock, 1, __ATOMIC_ACQUIRE)) { }
@@ -53,11 +85,21 @@ namespace vh {
         {
             Dl_info di;
             char const* sym = "?";
-            unsigned long off = 0;
-            if (dladdr(b.site, &di) && di.dli_sname)
+            unsigned long off = (unsigned long) (uintptr_t) b.site;
+            if (dladdr(b.site, &di))
             {
-                sym = di.dli_sname;
-                off = (unsigned long) ((char*) b.site - (char*) di.dli_saddr);
+                if (di.dli_sname)
+                {
+                    sym = di.dli_sname;
+                    off = (unsigned long) ((char*) b.site - (char*) di.dli_saddr);
+                }
+                else if (di.dli_fname)
+                {
+                    // no exported symbol: module + offset (for addr2line -e <module> <offset>)
+                    char const* slash = strrchr(di.dli_fname, '/');
+                    sym = slash ? slash + 1 : di.dli_fname;
+                    off = (unsigned long) ((char*) b.site - (char*) di.dli_fbase);
+                }
             }
             snprintf(g_first_dirty, sizeof(g_first_dirty),
                 "a heap block of %u bytes (released from %s+0x%lx) was written after its release: %zu bytes changed, "
@@ -76,8 +118,15 @@ namespace vh {
             free(p);
             return;
         }
-        memset(p, PATTERN, n);
         lock();
+        if (set_has(p))
+        {
+            if (!g_first_dirty[0])
+                snprintf(g_first_dirty, sizeof(g_first_dirty), "a heap block of %zu bytes was released twice", n);
+            unlock();
+            return;
+        }
+        memset(p, PATTERN, n);
         if (!g_ring) g_ring = (QBlock*) calloc(RING, sizeof(QBlock));
         while (g_ring && (g_bytes + n > MAX_BYTES || g_head - g_tail >= RING))
         {
@@ -85,10 +134,12 @@ namespace vh {
             g_tail++;
             g_bytes -= b.n;
             check_block(b);
+            set_del(b.p);
             free(b.p);
         }
         if (g_ring)
         {
+            set_add(p);
             g_ring[g_head % RING] = QBlock{p, (uint32_t) n, site};
             g_head++;
             g_bytes += n;
@@ -114,6 +165,7 @@ namespace vh {
         {
             QBlock b = g_ring[g_tail % RING];
             g_tail++;
+            set_del(b.p);
             free(b.p);
         }
         g_bytes = 0;
